@@ -16,7 +16,7 @@ RESP = 'smbus_response::MCTPSMBusContextResponse'
 CTX = "smbus::MCTPSMBusContext::<'_>"
 TRAIT = 'mctp_traits::SMBusMCTPRequestResponse'
 
-ENGINE_VERSION = '39'
+ENGINE_VERSION = '41'
 
 
 def vendor_format_domain(name):
@@ -129,6 +129,114 @@ class Analysis:
         k = self.kind_of(name_or_key)
         return list(self.rename_tables().get(k, [])) if k else []
 
+    def cell_images_for(self, key):
+        """EID cells whose content is not a plain integer (e.g. Cell<Option<NonZeroU8>>): the symbolic initial content of
+        such a cell is the image of the public setter `set_eid` applied to a canonical symbolic byte (named like the cell on
+        the pinned tree), chosen lazily on the first read, so that everything read from the cell is expressed over that
+        byte whatever the representation.  Empty on the pinned tree (Cell<u8>)."""
+        if self._roles_busy:
+            return {}
+        kind = self.kind_of(key)
+        if kind is None or '::set_eid' in key:
+            return {}
+        self.rename_tables()
+        info = getattr(self, '_cell_reps', None)
+        if info is None:
+            info = self._cell_reps = self.cell_representations()
+        todo = []
+        if kind in ('Req', 'Resp'):
+            if info.get(kind):
+                todo.append((kind, ('self', 'eid')))
+        else:
+            for name, tag in (('request', 'Req'), ('response', 'Resp')):
+                if info.get(tag):
+                    todo.append((tag, ('self', name, 'eid')))
+        out = {}
+        for tag, leafname in todo:
+            img = self.setter_image(tag, leafname)
+            if img:
+                out[leafname] = img
+        return out
+
+    def setter_image(self, tag, leafname):
+        cache = self.__dict__.setdefault('_setter_images', {})
+        if (tag, leafname) in cache:
+            return cache[(tag, leafname)]
+        from terms import mk_lin
+        key = '<%s as %s>::set_eid' % (REQ if tag == 'Req' else RESP, TRAIT)
+        res = None
+        if key in self.prog.instances:
+            rel = [a for a, c in self.roles_found.get(tag, []) if c == ('self', 'eid')]
+            e = mk_lin(8, 0, {('in', leafname, 8, None): 1})
+
+            def make(interp, st, inst):
+                selfv = interp.build_sym(st, inst['sig']['inputs'][0], ('scratch',))
+                return [selfv, e]
+            try:
+                it = Interp(self.prog, max_leaves=40, total_steps=20000)
+                leaves, na = it.run(key, make)
+                img = []
+                ok = bool(rel) and bool(leaves)
+                for l in leaves:
+                    if l.kind != 'return':
+                        ok = False
+                        break
+                    v = l.heap.get('scratch')
+                    for nm in rel[0][1:]:
+                        adt = self.prog.adts[v[1]]
+                        idx = [i for i, f in enumerate(adt['variants'][0]['fields']) if f['name'] == nm][0]
+                        v = v[3][idx]
+                    if v[0] != 'model' or v[1] != 'cell':
+                        ok = False
+                        break
+                    img.append((tuple(l.facts[na:]), v[2]))
+                res = img if ok else None
+            except Exception:
+                res = None
+        cache[(tag, leafname)] = res
+        return res
+
+    def cell_representations(self):
+        """-> {'Req': bool, 'Resp': bool, 'paths': {'request': proj, 'response': proj}}: True where the EID cell of that
+        half does not hold a plain integer."""
+        out = {'paths': {}}
+        P = self.prog
+        for tag, pre in (('Req', REQ), ('Resp', RESP)):
+            out[tag] = False
+            found = [a for a, c in self.roles_found.get(tag, []) if c == ('self', 'eid')]
+            adt = [a for i, a in P.adts.items() if a['path'] == pre]
+            if len(found) != 1 or len(adt) != 1:
+                continue
+            ty = None
+            cur = adt[0]
+            try:
+                for nm in found[0][1:]:
+                    f = [f for f in cur['variants'][0]['fields'] if f['name'] == nm][0]
+                    ty = f['ty']
+                    cur = P.adt(ty) if ty['k'] == 'adt' else None
+                if cur is not None and cur['path'] == 'core::cell::Cell':
+                    inner = P.adt(cur['variants'][0]['fields'][0]['ty'])['variants'][0]['fields'][0]['ty']
+                    out[tag] = inner['k'] not in ('int', 'bool')
+            except Exception:
+                pass
+        # where the halves live inside the whole context: field indices along the discovered path
+        ctx = [a for i, a in P.adts.items() if a['path'] == CTX.split('::<')[0]]
+        for name in ('request', 'response'):
+            pth = [a for a, c in self.roles_found.get('ctx_halves', []) if c == ('self', name)]
+            if len(pth) == 1 and len(ctx) == 1:
+                proj = []
+                cur = ctx[0]
+                try:
+                    for nm in pth[0][1:]:
+                        idx = [i for i, f in enumerate(cur['variants'][0]['fields']) if f['name'] == nm][0]
+                        proj.append(('f', idx, None))
+                        ty = cur['variants'][0]['fields'][idx]['ty']
+                        cur = P.adt(ty) if ty['k'] == 'adt' else None
+                    out['paths'][name] = tuple(proj)
+                except Exception:
+                    pass
+        return out
+
     # ------------------------------------------------------------ leaves
     def leaves(self, name):
         """-> (leaves, n_assumed). Cached per (tree, profile, engine version, entry, rename table)."""
@@ -182,6 +290,7 @@ class Analysis:
             it.total_steps = 20000      # the run as a whole is over budget: remaining entries fail closed quickly
         it.domain_hook = spec.get('hook')
         it.rename = spec.get('rename') if spec.get('rename') is not None else self.rename_for(spec['key'])
+        it.cell_images = self.cell_images_for(spec['key'])
         ma = make_args or default_args(opts=spec.get('opts'), overrides=spec.get('overrides'))
         try:
             leaves, na = it.run(spec['key'], ma, spec.get('assume'), label=spec.get('label'))
